@@ -39,6 +39,14 @@ func (g *gen) bulkElements(ledgerName, user string, targets []uint64, n int, par
 			exp = "NOT_FOUND"
 		case x < 8:
 			op = Op{Kind: KAcctMetaSet, Address: acct}
+			if !parallel && g.txN > 0 && g.r.Chance(0.4) {
+				op = Op{Kind: KTxMetaSet, TxID: 1 + uint64(g.r.Intn(int(g.txN)))}
+			}
+		case x < 9 && len(g.delKeys) > 0 && !parallel && g.r.Chance(0.6):
+			// a delete that succeeds: a key that setup put on a transaction, handed out once
+			k := g.delKeys[0]
+			g.delKeys = g.delKeys[1:]
+			op = delSetupKey(g, ledgerName, u64(k[0]), k[1])
 		case x < 9:
 			op = Op{Kind: KTxMetaDel, TxID: 1}
 			exp = "NOT_FOUND"
@@ -51,7 +59,9 @@ func (g *gen) bulkElements(ledgerName, user string, targets []uint64, n int, par
 		case KAcctMetaSet, KTxMetaSet:
 			op.Metadata = map[string]string{"m." + op.ID: Pick(g.r, weird)}
 		case KTxMetaDel, KAcctMetaDel:
-			op.Key = "d." + op.ID
+			if op.Key == "" {
+				op.Key = "d." + op.ID
+			}
 		}
 		op.Expect = exp
 		els = append(els, op)
@@ -65,6 +75,18 @@ func init() {
 		sc := &Scenario{Property: "C32", Profile: "bulk", Knobs: randomKnobs(r), Checks: []string{"logs-match-ops", "replay", "bulk", "events"}, Params: map[string]string{}}
 		g := &gen{r: r, sc: sc}
 		sc.Setup = g.baseSetup("l1", "100", 4)
+		txID := uint64(0)
+		for _, so := range sc.Setup {
+			if so.Kind != KPostings {
+				continue
+			}
+			txID++
+			for k := range so.Metadata {
+				if k == "d.k"+so.ID {
+					g.delKeys = append(g.delKeys, [2]string{fmt.Sprint(txID), so.ID})
+				}
+			}
+		}
 		nc := 1 + r.Intn(2)
 		nextTarget := uint64(3) // extra txs are ids 3..6 (two funding txs first)
 		for c := 0; c < nc; c++ {
